@@ -147,8 +147,6 @@ def run_case(acc, audit, wd, idx, sch, rng, arrangement, want_cpp, seed):
     files = make_split(sch, rng, twice=(arrangement == 'include-twice'),
                        like_types=(arrangement == 'files-named-like-types'), stub=(arrangement == 'declaration-less-file'),
                        dotted=(arrangement == 'dotted-stems'))
-    if arrangement == 'dotted-stems':
-        want_cpp = True
     root = os.path.join(wd, 'c%d' % idx)
     os.makedirs(root)
     # --- single-file build
@@ -427,8 +425,8 @@ def run_shard(spec):
             collide_names(sch)
             for arrangement in (ARRANGEMENTS if not spec.get('extra') else [spec['extra']['arrangement']]):
                 idx += 1
-                run_case(acc, audit, wd, idx, sch, rng, arrangement, spec['cpp'] and arrangement == 'same-dir',
-                         spec['seed'])
+                run_case(acc, audit, wd, idx, sch, rng, arrangement,
+                         spec['cpp'] and arrangement in ('same-dir', 'dotted-stems'), spec['seed'])
             run_negative(acc, wd, idx, sch, rng)
     return acc.done()
 
